@@ -332,6 +332,9 @@ func run(t *testing.T, d *sim.D) {
 			case 4:
 				return &sim.Step{Op: "blk", A: []int64{i, int64(r.Weighted(6, 2, 1)), int64(r.Intn(4))}}
 			case 5:
+				if r.Chance(0.35) { // exactly to the first slot of the next epoch: where "current slot" and "last elapsed slot" are in different epochs
+					return &sim.Step{Op: "advance", A: []int64{int64(32 - uint64(slotNow())%32)}}
+				}
 				return &sim.Step{Op: "advance", A: []int64{int64([]int{1, 1, 2, 31, 32, 33, 64, 100}[r.Intn(8)])}}
 			case 6:
 				return &sim.Step{Op: "restart"}
